@@ -25,9 +25,9 @@ SCR=${SENS_REPO:-/tmp/sens-repo}
 git -C /repo worktree remove --force "$SCR" 2>/dev/null
 git -C /repo worktree add -q --detach "$SCR" HEAD || exit 2
 export VERIF_REPO=$SCR
-export VERIF_SIM_SRC=/verif/target/shadow-src
+export VERIF_SIM_SRC=/verif/target/${VERIF_SHADOW:-shadow}-src
 rm -rf "$VERIF_SIM_SRC"; mkdir -p /verif/target; cp -r /verif/sim/src "$VERIF_SIM_SRC"
-BIN=/verif/target/shadow-bin
+BIN=/verif/target/${VERIF_SHADOW:-shadow}-bin
 trap 'git -C /repo worktree remove --force "$SCR" 2>/dev/null' EXIT
 for p in "${patches[@]}"; do
   name=$(basename "$p" .diff)
